@@ -672,8 +672,15 @@ func c11BuilderParts(env *mc.Env) []c11BPart {
 var c11Features = []string{c11FBE, c11FUsed, c11FAlloc}
 
 func c11RunBuilderParts(env *mc.Env, unit string) {
-	for _, bp := range c11BuilderParts(env) {
+	bparts := c11BuilderParts(env)
+	for bi, bp := range bparts {
 		bp := bp
+		// the builder parts together may take a third of the unit's budget
+		penv := c11PartEnv(env, len(bparts)-bi)
+		if lim := env.Budget/3 - env.Elapsed(); penv.Budget > lim {
+			penv.Budget = lim
+		}
+		cpu0 := c11CPUms()
 		res := mc.NewResult("C11", unit+"-builders-"+bp.name, "enumeration")
 		rep := &c11Reporter{}
 		ds := mc.NewDistinctSet()
@@ -690,7 +697,7 @@ func c11RunBuilderParts(env *mc.Env, unit string) {
 			dims = append(dims, len(bp.ths))
 			rx := mc.Radix{Dims: dims}
 			total += rx.Size()
-			_, ok := env.ParallelRangeL(res, rx.Size(), func(l *mc.Local, idx int64) {
+			_, ok := penv.ParallelRangeL(res, rx.Size(), func(l *mc.Local, idx int64) {
 				d := rx.Decode(idx, make([]int, 0, 8))
 				bc := c11BCase{Feature: f, PrioTh: bp.ths[d[bp.n]]}
 				for i := 0; i < bp.n; i++ {
@@ -707,6 +714,7 @@ func c11RunBuilderParts(env *mc.Env, unit string) {
 			complete = complete && ok
 			rule = append(rule, fmt.Sprintf("%s: %s", f, a.String()))
 		}
+		res.Count("cpu_ms", c11CPUms()-cpu0)
 		res.Traces = res.Evaluations
 		res.Distinct = ds.Len()
 		res.Exhaustive = complete
@@ -823,8 +831,11 @@ func c11EParts(env *mc.Env) []c11EPart {
 }
 
 func c11RunRoundParts(env *mc.Env, unit string) {
-	for _, ep := range c11EParts(env) {
+	eparts := c11EParts(env)
+	for ei, ep := range eparts {
 		ep := ep
+		penv := c11PartEnv(env, len(eparts)-ei)
+		cpu0 := c11CPUms()
 		res := mc.NewResult("C11", unit+"-"+ep.name, "faults")
 		rep := &c11Reporter{}
 		ds := mc.NewDistinctSet()
@@ -836,7 +847,7 @@ func c11RunRoundParts(env *mc.Env, unit string) {
 		dims = append(dims, 1<<uint(ep.n))
 		rx := mc.Radix{Dims: dims}
 		rich := ep.n <= 2
-		done, complete := env.ParallelRangeL(res, rx.Size(), func(l *mc.Local, idx int64) {
+		done, complete := penv.ParallelRangeL(res, rx.Size(), func(l *mc.Local, idx int64) {
 			d := rx.Decode(idx, make([]int, 0, 8))
 			c := c11MCase{Features: ep.features, Already: make([]bool, ep.n)}
 			for i := 0; i < ep.n; i++ {
@@ -896,6 +907,7 @@ func c11RunRoundParts(env *mc.Env, unit string) {
 				})
 			}
 		})
+		res.Count("cpu_ms", c11CPUms()-cpu0)
 		res.Traces = res.Evaluations
 		res.Distinct = ds.Len()
 		res.Exhaustive = complete
@@ -917,7 +929,6 @@ func c11RunRoundParts(env *mc.Env, unit string) {
 		env.Emit(res)
 	}
 }
-
 
 // c11Replay re-executes the case of a replay file (VERIF_REPLAY) and prints what happened.
 func c11Replay(env *mc.Env) bool {
